@@ -156,8 +156,8 @@ def obligations(tier: str):
                    bounds="every registered element type at the leaves of a connection of 1-2 items", functions=funcs,
                    expect_reach=["circuitikz", "exports"], max_paths=2000000, key=_key),
     ]
-    obs.append(Obligation("open", make_harness(3, 1, ["R", "C"], False, drawing=False, open_branch=True),
-                          bounds="nests of <= 3 resistors/capacitors, depth <= 2, in which one resistor of a parallel connection has R = inf (an open path; set through the API) "
+    obs.append(Obligation("open", make_harness(3, 1, ["R"], False, drawing=False, open_branch=True),
+                          bounds="nests of <= 3 resistors, depth <= 2, in which one resistor of a parallel connection has R = inf (an open path; set through the API) "
                                  "and the circuit can still be simulated", functions=funcs, expect_reach=["circuitikz", "exports", "open path, simulated"], max_paths=2000000, key=_key))
     for o in obs:
         o.replay = o.harness
